@@ -152,6 +152,50 @@ theorem valuesC_spec (ch : List PC) :
   · intro h
     exact ⟨p.no, (mem_keysC_iff ch p.no).mpr (by rw [h]; rfl), h⟩
 
+/-! ### `copy()` -/
+
+theorem find_unique {vs : List Port} (hn : (vs.map (fun p => p.no)).Nodup) {p : Port} (hp : p ∈ vs) :
+    vs.find? (fun q => q.no == p.no) = some p := by
+  induction vs with
+  | nil => cases hp
+  | cons a vs ih =>
+    simp only [List.map_cons, List.nodup_cons] at hn
+    rcases List.mem_cons.mp hp with rfl | hp'
+    · simp
+    · have hne : (a.no == p.no) = false := by
+        simp only [beq_eq_false_iff_ne, ne_eq]
+        intro e; exact hn.1 (e ▸ List.mem_map.mpr ⟨p, hp', rfl⟩)
+      simp only [List.find?_cons, hne]
+      exact ih hn.2 hp'
+
+/-- `copy()` never raises and the copy (a collection without masks and without chain) answers every lookup by number as
+the original does -/
+theorem copyC_spec (ch : List PC) :
+    ∃ c, copyC ch = some c ∧ c.masks = [] ∧ (∀ k, getNoC [c] k = getNoC ch k) ∧
+      (∀ k, k ∈ keysC [c] ↔ k ∈ keysC ch) := by
+  obtain ⟨vs, h1, h2, h3⟩ := valuesC_spec ch
+  have hnd : (vs.map (fun p => p.no)).Nodup := by rw [h2]; exact nodup_keysC ch
+  have hget : ∀ k, getNoC [(⟨vs, []⟩ : PC)] k = getNoC ch k := by
+    intro k
+    have : getNoC [(⟨vs, []⟩ : PC)] k = vs.find? (fun p => p.no == k) := by
+      simp only [getNoC, keysC, List.isEmpty_nil, ↓reduceIte]
+      cases vs.find? (fun p => p.no == k) <;> rfl
+    rw [this]
+    cases hg : getNoC ch k with
+    | some p =>
+      have hp : p ∈ vs := (h3 p).mpr (by rw [getNoC_no hg]; exact hg)
+      have := find_unique hnd hp
+      rw [getNoC_no hg] at this; exact this
+    | none =>
+      rw [List.find?_eq_none]
+      intro q hq
+      have := (h3 q).mp hq
+      simp only [beq_iff_eq]
+      intro e; rw [e, hg] at this; cases this
+  refine ⟨⟨vs, []⟩, by simp [copyC, h1], rfl, hget, ?_⟩
+  intro k
+  rw [mem_keysC_iff, mem_keysC_iff, hget]
+
 /-! ### the two-level chain of a connection -/
 
 theorem getNoC_orig (o : PC) (k : Nat) : getNoC [o] k = o.ports.find? (fun p => p.no == k) := by
@@ -295,6 +339,25 @@ theorem refines_runKeepMask (v : View) (m : PortMap) (h : List Notif) (hr : Refi
     | add p => exact refines_updateKeepMask v m p hr
     | modify p => exact refines_updateKeepMask v m p hr
     | delete p => exact refines_forget v m p hr
+
+/-! ### the handshake phase defers port statuses and replays them in order -/
+
+theorem hs_statuses (d : List (Nat × Port)) (v : View) (rs : List (Nat × Port)) :
+    (rs.map (fun x => HMsg.status x.1 x.2)).foldl hsStep ⟨some d, v⟩ = ⟨some (d ++ rs), v⟩ := by
+  induction rs generalizing d with
+  | nil => simp
+  | cons x rs ih =>
+    simp only [List.map_cons, List.foldl_cons, hsStep]
+    rw [ih]; simp
+
+theorem hs_dropped_before_features (c : HConn) (hc : c.deferred = none) (rs : List (Nat × Port)) :
+    (rs.map (fun x => HMsg.status x.1 x.2)).foldl hsStep c = c := by
+  induction rs with
+  | nil => rfl
+  | cons x rs ih =>
+    simp only [List.map_cons, List.foldl_cons]
+    have : hsStep c (.status x.1 x.2) = c := by simp [hsStep, hc]
+    rw [this]; exact ih
 
 /-! ### `original_ports` is written only by the features reply -/
 
